@@ -10,6 +10,7 @@ type gen struct {
 	g       *Grammar
 	aliases int
 	tags    int
+	markers int
 }
 
 func (x *gen) alias() string {
@@ -50,7 +51,7 @@ func (x *gen) symbol(nt int) *Expr {
 		if t >= nN || x.r.Intn(6) == 0 {
 			t = x.r.Intn(nN)
 		}
-		return &Expr{Kind: KNonterm, Sym: t}
+		return &Expr{Kind: KNonterm, Sym: t, Flag: x.r.Intn(2) == 0}
 	}
 	return x.term()
 }
@@ -84,6 +85,18 @@ func (x *gen) element(nt, depth int) *Expr {
 	switch {
 	case k < 9:
 		return x.maybeAlias(x.symbol(nt), 45)
+
+	case k == 9 && depth < 2: // optional list, mostly without alias: a position that only $N can name
+		l := &Expr{Kind: KList, Sep: -1, Plus: true}
+		if x.r.Intn(2) == 0 {
+			l.Sub = []*Expr{{Kind: KSeq, Sub: []*Expr{x.term()}}}
+		} else {
+			l.Sub = []*Expr{x.seq(nt, depth+2, true, 1)}
+		}
+		if x.r.Intn(4) == 0 {
+			l.Sep = x.r.Intn(len(x.g.Terms))
+		}
+		return &Expr{Kind: KOpt, Sub: []*Expr{x.maybeAlias(l, 20)}}
 	case k < 12: // optional symbol
 		return &Expr{Kind: KOpt, Sub: []*Expr{x.maybeAlias(x.symbol(nt), 60)}}
 	case k < 14: // optional group
@@ -114,6 +127,8 @@ func (x *gen) insertCmds(s *Expr, top bool, inList bool, startOK bool) {
 		p := 18
 		if i == 0 {
 			p = 6 // action before the guard: often conflicts
+		} else if prev := s.Sub[i-1]; prev.Kind == KOpt && prev.Sub[0].Kind == KList {
+			p = 70 // mid-rule action directly after an optional list
 		}
 		inserted := false
 		if (i > 0 || startOK) && x.r.Intn(100) < p {
@@ -176,31 +191,45 @@ func Rand(r *rand.Rand, opt Options) *Grammar {
 	for i := 0; i < nN; i++ {
 		g.Nonterms = append(g.Nonterms, &Nonterm{Name: fmt.Sprintf("N%d", i), StrVal: r.Intn(3) == 0})
 	}
+	if r.Intn(100) < 35 {
+		// template parameter: some nonterminals are declared N<F> with [F] / [!F] alternatives
+		for _, n := range g.Nonterms[1:] {
+			n.Templ = r.Intn(2) == 0
+		}
+	}
 	for i, n := range g.Nonterms {
 		if i > 0 && r.Intn(6) == 0 {
 			// empty rule (the action is the whole body)
 			n.Rules = append(n.Rules, &Rule{Body: &Expr{Kind: KSeq}})
 		}
 		nr := 1 + r.Intn(3)
-		used := map[int]bool{}
+		used := map[int]int{} // guard -> 1 taken for [F], 2 taken for [!F], 3 both
 		for k := 0; k < nr; k++ {
 			body := x.seq(i, 0, true, 4)
 			gt := body.Sub[0].Sym
-			if used[gt] {
+			cond, mask := 0, 3
+			if n.Templ && r.Intn(2) == 0 {
+				cond, mask = 1, 1
+				if r.Intn(2) == 0 {
+					cond, mask = -1, 2
+				}
+			}
+			if used[gt]&mask != 0 {
 				continue
 			}
-			used[gt] = true
+			used[gt] |= mask
 			if r.Intn(8) == 0 {
 				// the rule starts with an optional symbol instead of being led by the guard
 				body.Sub = append([]*Expr{{Kind: KOpt, Sub: []*Expr{x.maybeAlias(x.term(), 70)}}}, body.Sub...)
 			}
-			n.Rules = append(n.Rules, &Rule{Body: body})
+			n.Rules = append(n.Rules, &Rule{Body: body, Cond: cond})
 		}
 		for ri, ru := range n.Rules {
 			x.insertCmds(ru.Body, true, false, true)
 			x.tags++
 			ru.Body.Sub = append(ru.Body.Sub, &Expr{Kind: KCmd, Cmd: &Cmd{End: true, Tag: x.tags, StrVal: n.StrVal}})
 			separate(ru.Body)
+			x.addMarkers(ru.Body)
 			ru.Scope = &Scope{Root: ru.Body, NT: i, Rule: ri}
 		}
 	}
@@ -219,7 +248,19 @@ func Rand(r *rand.Rand, opt Options) *Grammar {
 			break
 		}
 	}
+	for _, in := range g.Inputs {
+		// an input cannot take template arguments
+		if n := g.Nonterms[in]; n.Templ {
+			n.Templ = false
+			for _, ru := range n.Rules {
+				ru.Cond = 0
+			}
+		}
+	}
 	for _, n := range g.Nonterms {
+		if n.Templ {
+			g.HasFlag = true
+		}
 		for _, ru := range n.Rules {
 			x.finishScope(ru.Scope)
 		}
@@ -482,6 +523,14 @@ func (x *gen) fillCmd(sc *Scope, c *Cmd, afterEarly bool) {
 		}
 		add(Item{Kind: IValue, Text: fmt.Sprintf("$%d", p-1), Form: "$N", Pos: []int{p}}, 2)
 	}
+	for p := 1; p < c.maxPos; p++ {
+		form, w := "N", 1
+		if isList(p) {
+			form, w = "N(list)", 3
+		}
+		add(Item{Kind: IOffset, Text: fmt.Sprintf("${%d.offset}", p-1), Form: "${" + form + ".offset}", Pos: []int{p}}, w)
+		add(Item{Kind: IEndoffset, Text: fmt.Sprintf("${%d.endoffset}", p-1), Form: "${" + form + ".endoffset}", Pos: []int{p}}, w)
+	}
 	if !sc.IsList {
 		if !afterEarly {
 			add(Item{Kind: IFirstOffset, Text: "${first().offset}", Form: "${first().offset}"}, 3)
@@ -555,6 +604,8 @@ func adjacent(e *Expr, pairs *[][2]*Expr) flat {
 		return flat{starts: cmdSet{e: true}, ends: cmdSet{e: true}}
 	case KTerm, KNonterm, KList:
 		return flat{}
+	case KMarker:
+		return flat{empty: true}
 	case KOpt:
 		f := adjacent(e.Sub[0], pairs)
 		f.empty = true
@@ -660,4 +711,73 @@ func separate(body *Expr) {
 		}
 	}
 	lists(body)
+}
+
+// addMarkers puts state markers into a rule body. A marker occupies no stack
+// slot and no position. The compiler refuses a mid-rule action that is
+// extracted after a marker of the same rule, so markers only go behind the
+// symbol that follows the last mid-rule action (anywhere when there is none).
+func (x *gen) addMarkers(body *Expr) {
+	if x.r.Intn(100) >= 35 {
+		return
+	}
+	hasCmd := func(e *Expr) bool {
+		found := false
+		var v func(e *Expr)
+		v = func(e *Expr) {
+			if e.Kind == KCmd && !e.Cmd.End {
+				found = true
+			}
+			if e.Kind == KList {
+				return
+			}
+			for _, s := range e.Sub {
+				v(s)
+			}
+		}
+		v(e)
+		return found
+	}
+	last := -1
+	for i, e := range body.Sub {
+		if hasCmd(e) {
+			last = i
+		}
+	}
+	from := 0
+	if last >= 0 {
+		// the symbol following the last action must be a plain symbol, markers come after it
+		if last+1 >= len(body.Sub) {
+			return
+		}
+		if k := body.Sub[last+1].Kind; body.Sub[last].Kind != KCmd || k != KTerm && k != KNonterm && k != KList {
+			return
+		}
+		from = last + 2
+	}
+	end := len(body.Sub) - 1 // before the end-of-rule action
+	if from > end {
+		return
+	}
+	n := 1 + x.r.Intn(2)
+	for i := 0; i < n; i++ {
+		at := from + x.r.Intn(end-from+1)
+		x.markers++
+		m := &Expr{Kind: KMarker, Sym: x.markers}
+		body.Sub = append(body.Sub[:at:at], append([]*Expr{m}, body.Sub[at:]...)...)
+		end++
+	}
+	var mark func(e *Expr)
+	mark = func(e *Expr) {
+		if e.Kind == KCmd {
+			e.Cmd.Marked = true
+		}
+		if e.Kind == KList {
+			return
+		}
+		for _, s := range e.Sub {
+			mark(s)
+		}
+	}
+	mark(body)
 }
